@@ -449,6 +449,14 @@ func c14RouterAddress(s gen.Signed, d string) c14Outcome {
 		style = strings.Repeat("s", 256)
 	case "option-value-256-bytes":
 		opts["big"] = strings.Repeat("v", 256)
+	case "style-200-runes-400-bytes":
+		style = strings.Repeat("\u00e9", 200)
+	case "option-value-100-runes-300-bytes":
+		opts["big"] = strings.Repeat("\u4e16", 100)
+	case "option-key-200-runes-400-bytes":
+		opts[strings.Repeat("\u00e9", 200)] = "v"
+	case "style-127-runes-254-bytes":
+		style = strings.Repeat("\u00e9", 127)
 	case "options-body-65535", "options-body-65536", "options-body-65537", "options-body-65540", "options-body-65700", "options-body-66000":
 		var n int
 		fmt.Sscanf(d, "options-body-%d", &n)
@@ -473,6 +481,7 @@ var c14Menus = map[string][]c14Defect{
 	"LeaseSet":         {{"none", false}, {"17-leases", true}, {"signing-key-of-other-type", false}},
 	"KeysAndCert":      {{"none", false}, {"nil-crypto-key", false}, {"nil-signing-key", false}, {"padding-one-byte-short", true}, {"crypto-key-of-other-type", true}, {"signing-key-of-other-type", true}},
 	"RouterAddress":    {{"none", false}, {"empty-style", true}, {"style-256-bytes", false}, {"option-value-256-bytes", false},
+		{"style-200-runes-400-bytes", false}, {"option-value-100-runes-300-bytes", false}, {"option-key-200-runes-400-bytes", false}, {"style-127-runes-254-bytes", false},
 		{"options-body-65535", false}, {"options-body-65536", false}, {"options-body-65537", false}, {"options-body-65540", false}, {"options-body-65700", false}, {"options-body-66000", false}},
 }
 
